@@ -138,6 +138,14 @@ func (p *Proc) Writes() (meta, data int, trace []string) {
 	return r.Meta, r.Data, r.Trace
 }
 
+// Txns returns whether the child sees the underlying DB's read-write transactions at all (the DVID
+// tree carries the storage/badger hook), how many have completed, the ordinals of those that were
+// followed by another transaction inside the same store call, and of those outside any counted call.
+func (p *Proc) Txns() (hook bool, n int, interior, loose []int) {
+	r, _ := p.call(Req{Op: "writes"})
+	return r.TxnHook, r.Txn, r.Interior, r.Loose
+}
+
 // Call issues a non-HTTP request (delrepo, deldata, iid, mutid).
 func (p *Proc) Call(op, uuid, name string) (Resp, bool) {
 	return p.call(Req{Op: op, U: uuid, Name: name})
